@@ -24,7 +24,7 @@ class Untranslatable(Exception):
     pass
 
 
-EXCS = {"TypeError", "ValueError", "NameError", "ZeroDivisionError", "KeyError", "AttributeError"}
+EXCS = {"TypeError", "ValueError", "NameError", "ZeroDivisionError", "KeyError", "AttributeError", "ResolveError"}
 CMP = {ast.Lt: "py_lt", ast.LtE: "py_le", ast.Gt: "py_gt", ast.GtE: "py_ge"}   # val -> val -> res val
 CMP_PURE = {ast.Eq: "py_eq", ast.NotEq: "py_ne"}                                 # val -> val -> val
 CALL1 = {"abs": "py_abs", "float": "py_float"}
@@ -56,9 +56,10 @@ def const(v):
 
 
 class FunTr(object):
-    def __init__(self, fn):
+    def __init__(self, fn, shares=()):
         self.fn = fn
         self.k = 0
+        self.shares = set(shares)      # names whose Coq type is `share` (ordered field names)
 
     def fresh(self, base="t"):
         self.k += 1
@@ -91,7 +92,9 @@ class FunTr(object):
     def expr(self, e, env):
         if isinstance(e, ast.Name):
             if e.id not in env:
-                raise Untranslatable("name %s not a parameter/local" % e.id)
+                raise Untranslatable("name %s not a parameter/local (NameError at run time)" % e.id)
+            if e.id in self.shares:
+                raise Untranslatable("share %s used as a value" % e.id)
             return self.var(e.id), True
         if isinstance(e, ast.Constant):
             return const(e.value), True
@@ -174,6 +177,14 @@ class FunTr(object):
             if p:
                 return "(%s %s)" % (f, c), True
             return self.atomize([(c, p)], lambda ns: "(Ok (%s %s))" % (f, ns[0])), False
+        if len(ops) == 1 and isinstance(ops[0], (ast.In, ast.NotIn)) and isinstance(comps[0], ast.Name) \
+                and comps[0].id in self.shares and comps[0].id in env:
+            f = "py_in_share" if isinstance(ops[0], ast.In) else "py_not_in_share"
+            c, p = self.expr(e.left, env)
+            sh = self.var(comps[0].id)
+            if p:
+                return "(%s %s %s)" % (f, c, sh), True
+            return self.atomize([(c, p)], lambda ns: "(Ok (%s %s %s))" % (f, ns[0], sh)), False
         if any(isinstance(o, (ast.Is, ast.IsNot, ast.In, ast.NotIn)) for o in ops):
             raise Untranslatable("is/in inside a comparison chain")
         operands = [self.expr(e.left, env)] + [self.expr(c, env) for c in comps]
@@ -222,7 +233,8 @@ class FunTr(object):
                     if isinstance(t, ast.Name) and t.id not in out:
                         out.append(t.id)
             elif isinstance(s, ast.If):
-                for v in FunTr.assigned(s.body) + FunTr.assigned(s.orelse):
+                live = [b for b in (s.body, s.orelse) if not FunTr.raises(b)]   # a raising branch never joins
+                for v in [x for b in live for x in FunTr.assigned(b)]:
                     if v not in out:
                         out.append(v)
             elif isinstance(s, ast.Try):
@@ -241,6 +253,22 @@ class FunTr(object):
             if isinstance(s, ast.If) and s.orelse and FunTr.returns(s.body) and FunTr.returns(s.orelse):
                 return True
         return False
+
+    @staticmethod
+    def raises(stmts):
+        """stmts = zero or more plain assignments (message construction, not modelled) then `raise`"""
+        if not stmts or not isinstance(stmts[-1], ast.Raise):
+            return False
+        return all(isinstance(x, ast.Assign) and all(isinstance(t, ast.Name) for t in x.targets) for x in stmts[:-1])
+
+    @staticmethod
+    def raised(stmts):
+        r = stmts[-1].exc
+        f = r.func if isinstance(r, ast.Call) else r
+        name = f.attr if isinstance(f, ast.Attribute) else (f.id if isinstance(f, ast.Name) else None)
+        if name not in EXCS:
+            raise Untranslatable("raise of %r" % name)
+        return name
 
     @staticmethod
     def has_return(stmts):
@@ -289,13 +317,23 @@ class FunTr(object):
             if p:
                 return "(let %s := %s in %s)" % (self.var(x), c, body)
             return "(bind %s (fun %s => %s))" % (c, self.var(x), body)
+        if isinstance(s, ast.Raise) or self.raises(stmts):
+            return "(Err %s)" % self.raised(stmts)
         if isinstance(s, ast.If):
-            c, p = self.expr(s.test, env)
+            if isinstance(s.test, ast.Name) and s.test.id in self.shares and s.test.id in env:
+                c, p = "(py_share_truthy %s)" % self.var(s.test.id), True       # `if share:` is len(share) > 0
+            else:
+                c, p = self.expr(s.test, env)
             t = c if p else self.fresh("c")
 
             def wrap(body):
                 body = "(if py_truthy %s then %s else %s)" % (t, body[0], body[1])
                 return body if p else "(bind %s (fun %s => %s))" % (c, t, body)
+            # a branch that always raises has type res A for every A: it never reaches the join
+            if self.raises(s.orelse) and not self.has_return(s.body):
+                return wrap((self.block(s.body + rest, env, tail), "(Err %s)" % self.raised(s.orelse)))
+            if self.raises(s.body) and not self.has_return(s.orelse):
+                return wrap(("(Err %s)" % self.raised(s.body), self.block(s.orelse + rest, env, tail)))
             br, er = self.returns(s.body), self.returns(s.orelse)
             if br and er:
                 if rest:
@@ -344,7 +382,7 @@ class FunTr(object):
         names = [x.arg for x in a.args]
         env = set(names)
         body = self.block(list(fn.body), env, None)
-        args = " ".join("(%s : val)" % self.var(n) for n in names)
+        args = " ".join("(%s : %s)" % (self.var(n), "share" if n in self.shares else "val") for n in names)
         return "Definition %s %s : res val :=\n  %s.\n" % (coqname or fn.name, args, body)
 
 
@@ -360,6 +398,45 @@ def find_static(tree, cls, name):
                 raise Untranslatable("%s.%s is not a plain @staticmethod" % (cls, name))
             return f
     raise Untranslatable("class %s not found" % cls)
+
+
+def find_method(tree, cls, name):
+    for node in tree.body:
+        if isinstance(node, ast.ClassDef) and node.name == cls:
+            found = [f for f in node.body if isinstance(f, ast.FunctionDef) and f.name == name]
+            if len(found) != 1:
+                raise Untranslatable("%s.%s: %d definitions" % (cls, name, len(found)))
+            return found[0]
+    raise Untranslatable("class %s not found" % cls)
+
+
+def slice_function(method, var, params, shares, coqname):
+    """The top-level statement `if not <var>: ...` of a method, as a function of `params` returning
+    the final value of <var>.  Every parameter must be bound at that point of the method (an argument
+    or assigned earlier at top level) -- otherwise the real code raises NameError there: fail closed."""
+    idx = [i for i, st in enumerate(method.body)
+           if isinstance(st, ast.If) and isinstance(st.test, ast.UnaryOp) and isinstance(st.test.op, ast.Not)
+           and isinstance(st.test.operand, ast.Name) and st.test.operand.id == var]
+    if len(idx) != 1:
+        raise Untranslatable("%s: %d statements `if not %s:`" % (method.name, len(idx), var))
+    bound = {a.arg for a in method.args.args}
+    for st in method.body[:idx[0]]:
+        if isinstance(st, ast.Assign):
+            for t in st.targets:
+                for n in ast.walk(t):
+                    if isinstance(n, ast.Name):
+                        bound.add(n.id)
+    used = {n.id for n in ast.walk(method.body[idx[0]]) if isinstance(n, ast.Name) and isinstance(n.ctx, ast.Load)}
+    for pname in params:
+        if pname in used and pname not in bound:
+            raise Untranslatable("%s: name %s is read but never bound in the method (NameError at run time)"
+                                 % (method.name, pname))
+    fn = ast.FunctionDef(name=coqname, args=ast.arguments(posonlyargs=[], args=[ast.arg(arg=x) for x in params],
+                                                          vararg=None, kwonlyargs=[], kw_defaults=[], kwarg=None,
+                                                          defaults=[]),
+                         body=[method.body[idx[0]], ast.Return(value=ast.Name(id=var, ctx=ast.Load()))],
+                         decorator_list=[])
+    return FunTr(fn, shares=shares).definition(coqname)
 
 
 HEADER = """(* GENERATED on every run by %s from %s -- do not edit *)
